@@ -193,7 +193,7 @@ func (c *Csv[T]) AppendToFile(fileName string, rows <-chan *T) error {
 // WriteToFile creates a new file with the given name and writes the provided rows
 // of data to it, overwriting any existing content.
 func (c *Csv[T]) WriteToFile(fileName string, rows <-chan *T) error {
-	file, err := os.OpenFile(filepath.Clean(fileName), os.O_CREATE|os.O_WRONLY, 0o600)
+	file, err := os.OpenFile(filepath.Clean(fileName), os.O_CREATE|os.O_WRONLY|os.O_TRUNC, 0o600)
 	if err != nil {
 		return err
 	}
